@@ -20,6 +20,7 @@ type cycle struct {
 	fromMail bool // start the cycle with a buffer another task handed over, if there is one
 	putArg   uint64
 	second   bool // hold a second buffer during this cycle
+	pool     int  // which pool the cycle works on (a second pool of another shape may live next to pool 0)
 }
 
 const (
@@ -59,6 +60,17 @@ func (h *H[T]) C11(rc *runCtx) *Violation {
 	// Tasks, cycles and use operations are drawn as nested units, each
 	// preceded by the draw that decides whether it exists (0 = stop), so that a
 	// truncated or span-deleted tape is still a well-formed, smaller program.
+	as := []signal.Allocator{a}
+	if prog.Draw(3) == 2 && a.Capacity >= 1 {
+		// same element type, same total capacity, another shape: state a
+		// modified library keeps per package, type or size must not leak
+		b := signal.Allocator{Channels: a.Capacity, Capacity: a.Channels}
+		if b.Channels > 4*rc.b.MaxC {
+			b = signal.Allocator{Channels: 1, Capacity: a.Channels * a.Capacity}
+		}
+		b.Length = prog.Draw(b.Capacity + 1)
+		as = append(as, b)
+	}
 	contG := []int{2, 3, 8, 32}[prog.Draw(4)]
 	contM := []int{2, 4, 8}[prog.Draw(3)]
 	shareMode := prog.Draw(3) // 0 one shared pointer, 1 per-task copies by value, 2 mixed per cycle
@@ -112,6 +124,13 @@ func (h *H[T]) C11(rc *runCtx) *Violation {
 			cy.fromMail = prog.Draw(4) == 3
 			cy.putArg = uint64(prog.Draw(1 << 16))
 			cy.second = prog.Draw(6) == 5
+			if len(as) > 1 && prog.Draw(4) == 3 {
+				cy.pool = 1
+				cy.fromMail, cy.second = false, false
+				if cy.putMode == 3 {
+					cy.putMode = 0
+				}
+			}
 			estSteps += 8 + len(cy.uses) + cy.hold
 			cycles = append(cycles, cy)
 			prog.End()
@@ -136,6 +155,7 @@ func (h *H[T]) C11(rc *runCtx) *Violation {
 	rc.tally("strategy", simrt.StrategyNames[sim.Strategy])
 	rc.tally("tasks", spA("%d", g))
 	rc.tally("inner_gap", spA("%d", sim.InnerG))
+	rc.tally("second_pool", spA("%v", len(as) > 1))
 	rc.tally("share_mode", []string{"shared-pointer", "by-value-copies", "mixed"}[shareMode])
 	rc.cfg = spA("alloc=%+v G=%d maxM=%d share=%d strategy=%s stickyP=%d innerG=%d %s", a, g, m, shareMode,
 		simrt.StrategyNames[sim.Strategy], sim.StickyP, sim.InnerG, env)
@@ -144,8 +164,10 @@ func (h *H[T]) C11(rc *runCtx) *Violation {
 		rc.probes[pByValueCopies]++
 	}
 
-	pa := signal.PoolAlloc[T](a)
-	shared := &pa
+	pas := make([]signal.PoolAllocator[T], len(as))
+	for i := range as {
+		pas[i] = signal.PoolAlloc[T](as[i])
+	}
 	states := make([]*taskState, g)
 	// Per-task counters are task-local and summed after the join, so that
 	// the harness itself shares nothing between tasks.
@@ -156,7 +178,7 @@ func (h *H[T]) C11(rc *runCtx) *Violation {
 		ti := ti
 		ts := &taskState{}
 		states[ti] = ts
-		own := pa // the task's own copy of the allocator value (made before the tasks start)
+		own := append([]signal.PoolAllocator[T]{}, pas...) // the task's own copies of the allocator values (made before the tasks start)
 		sim.Go(spA("caller%d", ti), func(t *simrt.Task) {
 			ops, two, handed := 0, int64(0), int64(0)
 			defer func() { taskOps[ti], taskTwo[ti], taskHanded[ti] = ops, two, handed }()
@@ -169,11 +191,11 @@ func (h *H[T]) C11(rc *runCtx) *Violation {
 			handleOf := func(cy *cycle) *signal.PoolAllocator[T] {
 				switch cy.handle {
 				case 0:
-					return shared
+					return &pas[cy.pool]
 				case 1:
-					return &own
+					return &own[cy.pool]
 				}
-				cp := *shared
+				cp := pas[cy.pool]
 				return &cp
 			}
 			acquire := func(cy *cycle, cyc, which int) (b *signal.Buffer[T], ok bool) {
@@ -193,7 +215,7 @@ func (h *H[T]) C11(rc *runCtx) *Violation {
 				sim.Mix(0x9000 | uint64(id)<<16)
 				sim.Tracef("  task %d cycle %d: Get -> obj#%d", ti, cyc, id)
 				t.Yield(sFresh)
-				if v := freshCheck(a, b); v != nil {
+				if v := freshCheck(as[cy.pool], b); v != nil {
 					fail(v.prefixed("task %d cycle %d, obj#%d: ", ti, cyc, id))
 					return nil, false
 				}
